@@ -395,37 +395,39 @@ def oracle(case):
                             _sig("negcurv_no_progress", variant=variant, how=how, cg="fake" if fake else "library"))
     # eager and compiled agree (where the eager outcome is stable under threshold perturbation)
     re_, rs_ = res["eager"], res["static"]
-    stable = True
+    dis = None
+    if ("error" in re_) != ("error" in rs_):
+        dis = ("eager and compiled Newton-CG disagree on failure", _sig("eager_static_disagree", what="failure"))
+    elif "error" not in re_:
+        xe, xs = np.array(re_["x"]), np.array(rs_["x"])
+        if re_["status"] != rs_["status"]:
+            dis = (f"eager Newton-CG reports status {re_['status']}, compiled reports {rs_['status']}",
+                   _sig("eager_static_disagree", what="status"))
+        elif re_["nit"] != rs_["nit"]:
+            dis = (f"eager Newton-CG stops after {re_['nit']} iterations, compiled after {rs_['nit']}",
+                   _sig("eager_static_disagree", what="nit"))
+        elif np.max(np.abs(xe - xs)) > XTOL * (np.max(np.abs(xe)) + 1.0):
+            dis = ("eager and compiled Newton-CG return different points", _sig("eager_static_disagree", what="x"))
+    if dis is None or case.get("fragile"):
+        return None
+    # a disagreement counts only if the eager outcome is robust: thresholds perturbed by 4e-6 give the same outcome ...
     for sc in (1 + 4e-6, 1 - 4e-6):
         kw2 = dict(_kwargs(case, pinned))
         kw2["xtol"] = kw2["xtol"] * sc
         if kw2.get("absdelta") is not None:
             kw2["absdelta"] = kw2["absdelta"] * sc
         if _disc(_run_real(case, "eager", kw2, pinned)) != _disc(re_):
-            stable = False
-    # rounding-dominated tail: once the gradient is at rounding level the energy comparisons of the line search are
-    # decided by the last bits (op-by-op vs fused evaluation); nothing is claimed about agreement there
-    if stable and "error" not in re_ and re_["nit"] >= 1:
+            return None
+    # ... and the run has not entered the rounding-dominated tail: once the gradient is at rounding level the energy
+    # comparisons of the line search are decided by the last bits (op-by-op vs fused evaluation)
+    if "error" not in re_ and re_["nit"] >= 1:
         prev = _run_real(case, "eager", dict(_kwargs(case, pinned), maxiter=re_["nit"] - 1, miniter=None), pinned) \
             if re_["nit"] > 1 else {"x": x0}
         if "error" not in prev:
             gp = np.array(jax.grad(fflat)(jnp.array(prev["x"], dtype=float)))
             if float(gp @ gp) <= 1e-9 * scale:
-                stable = False
-    if stable and not case.get("fragile"):
-        if ("error" in re_) != ("error" in rs_):
-            return ("eager and compiled Newton-CG disagree on failure", _sig("eager_static_disagree", what="failure"))
-        if "error" not in re_:
-            if re_["status"] != rs_["status"]:
-                return (f"eager Newton-CG reports status {re_['status']}, compiled reports {rs_['status']}",
-                        _sig("eager_static_disagree", what="status"))
-            if re_["nit"] != rs_["nit"]:
-                return (f"eager Newton-CG stops after {re_['nit']} iterations, compiled after {rs_['nit']}",
-                        _sig("eager_static_disagree", what="nit"))
-            xe, xs = np.array(re_["x"]), np.array(rs_["x"])
-            if np.max(np.abs(xe - xs)) > XTOL * (np.max(np.abs(xe)) + 1.0):
-                return ("eager and compiled Newton-CG return different points", _sig("eager_static_disagree", what="x"))
-    return None
+                return None
+    return dis
 
 
 # ------------------------------------------------------------------------------------------------ generators
@@ -723,26 +725,26 @@ def _check(ctx, cases):
 
 def run(ctx):
     cases = _load_corpus()
-    for _ in range(ctx.n(11, 50)):
+    for _ in range(ctx.n(8, 50)):
         cases.append(_gen_case(ctx.rng, ctx.quick, modelled=True))
-    for _ in range(ctx.n(4, 30)):
+    for _ in range(ctx.n(3, 30)):
         cases.append(_gen_case(ctx.rng, ctx.quick, modelled=False))
-    for _ in range(ctx.n(5, 24)):
+    for _ in range(ctx.n(4, 24)):
         c = _gen_reset_case(ctx.rng)
         if c is not None:
             cases.append(c)
-    for _ in range(ctx.n(3, 16)):
+    for _ in range(ctx.n(2, 16)):
         c = _gen_trust_case(ctx.rng)
         if c is not None:
             cases.append(c)
-    for _ in range(ctx.n(2, 20)):
+    for _ in range(ctx.n(1, 20)):
         cases.append(_gen_trig(ctx.rng))
     B = 40
     for a in range(0, len(cases), B):
         _check(ctx, cases[a:a + B])
     tcases = [c for c in cases if c.get("poly") and not c.get("cgfake") and c.get("maxiter") != 0]
     tcases = [dict(c, maxiter=ctx.rng.choice([1, 3, 6, 12])) if not c.get("trust_target") else c for c in tcases]
-    _trust_tie(ctx, tcases[:ctx.n(10, 60)])
+    _trust_tie(ctx, tcases[:ctx.n(6, 60)])
 
 
 def search(ctx):
